@@ -254,6 +254,11 @@ def parse_where(s):
         if p.startswith('(') and p.endswith(')') and re.search(r'\s+OR\s+', p, re.I):
             alts = [parse_where(x)[0] for x in re.split(r'\s+OR\s+', p[1:-1], flags=re.I)]
             conj.append(('or', alts)); continue
+        m = re.match(r'^NOT\s*\(\s*(\w+)\s*(=|!=|<>|>=|<=|>|<)\s*([^()]+?)\s*\)$', p, re.I)
+        if m:
+            # NOT (a op b) selects the rows where a op' b with the complementary operator: for a NULL operand both are NULL, i.e. not selected
+            neg = {'=': '!=', '!=': '=', '<>': '=', '>=': '<', '<=': '>', '>': '<=', '<': '>='}[m.group(2)]
+            conj.append((m.group(1), neg, m.group(3).strip())); continue
         m = re.match(r'^(\w+)\s+IS\s+(NOT\s+)?NULL$', p, re.I)
         if m:
             conj.append((m.group(1), 'notnull' if m.group(2) else 'isnull', None)); continue
